@@ -244,6 +244,14 @@ func TestVerifC09(t *testing.T) {
 		// (d) membership changes while the loop dispatches (through a real proxy loop)
 		fx, err := newVfFixture("svc.verif.test", fmt.Sprintf("127.5.%d.60", round), 5060, []string{"udp://" + host + ":7000", "tcp://" + host + ":7001"}, 1200, false, false, true, nil, nil)
 		if err == nil {
+			// somebody listens at every address the name will resolve to: the tcp members are
+			// really dialled (and their connections registered) while the membership changes
+			live := newVfSinks()
+			for j := 0; j < 5; j++ {
+				live.listenTCP(fmt.Sprintf("127.5.%d.7%d:7001", round, j))
+				live.listenUDP(fmt.Sprintf("127.5.%d.7%d:7000", round, j))
+			}
+			defer live.close()
 			stop := make(chan struct{})
 			wg.Add(1)
 			go func() {
